@@ -843,6 +843,11 @@ func RunFamily(c *core.Ctx, p Plan) {
 		}
 		HammerStage(c, p.What, n, rounds, 1)
 	}
+	if p.Fam == "presence" && !c.Quick() {
+		// two brokers whose surveyors are started and told they have a peer: a status request then really surveys the
+		// cluster (and, no handler being registered for presence queries, still lists the requester's broker only)
+		ClusterStage(c, p.What, 2, true, []string{"presence"}, 25, 14)
+	}
 	c.Set("distinct_nontrivial", nontrivial)
 	c.Set("rule", p.Rule)
 	c.Assume = append(c.Assume,
